@@ -232,6 +232,68 @@ def no_environment(ctx, r, quick):
             ctx.violation('spec', f'a Manifest with a signature framework was loaded with verification requested ({how}) and no OpenPGP environment: '
                           f'{len(got)} entries handed out although nothing was verified', {'text': t, 'how': how, 'entries': got})
     ctx.count('text:no-environment', n, n, dist={'loads_refused': refused})
+    rejecting_environment(ctx, r, quick)
+
+
+def rejecting_environment(ctx, r, quick):
+    """an existing signed top-level Manifest whose signature the OpenPGP environment rejects (tampered text, unknown key): every front end that
+    loads it with the default of verify_openpgp refuses it - the loader constructed for verification, for update and for creation
+    (allow_create=True), `gemato verify / update / create` - and hands out none of its entries"""
+    import tempfile
+    import gemato.recursiveloader as rl
+    import gemato.exceptions as ge
+    import p_tree as PT
+
+    class Rejecting:
+        calls = 0
+
+        def verify_file(self, f):
+            Rejecting.calls += 1
+            f.read()
+            raise ge.OpenPGPVerificationFailure('BAD signature (stand-in environment)')
+
+        def clear_sign_file(self, f, outf, keyid=None):
+            raise ge.OpenPGPSigningFailure('no key (stand-in environment)')
+    n = refused = 0
+    old_home = os.environ.get('GNUPGHOME')
+    with tempfile.TemporaryDirectory(prefix='gv-c04r-', dir=os.environ.get('GV_SCRATCH')) as d:
+        os.makedirs(os.path.join(d, 'home'), mode=0o700)
+        for i in range(24 if quick else 240):
+            tree = os.path.join(d, 't%d' % i)
+            os.makedirs(tree)
+            open(os.path.join(tree, 'a'), 'w').write('a\n')
+            open(os.path.join(tree, 'secret'), 'w').write('s\n')
+            body = ['IGNORE secret', 'DATA a 2 SHA1 3f786850e387550fdab836ed7e6dc881de23001b'][:r.randint(1, 2)]
+            t = seq_text([BEGIN, 'Hash: SHA256', ''] + body + [SIGBEGIN, '', 'iQEzBAEBCgAdFiEE', '=BR6/', END], True)
+            open(os.path.join(tree, 'Manifest'), 'w').write(t)
+            how = r.choice(['loader', 'loader-update', 'loader-create', 'loader-create', 'cli-verify', 'cli-update', 'cli-create', 'cli-create'])
+            n += 1
+            ok = None
+            try:
+                if how.startswith('loader'):
+                    Rejecting.calls = 0
+                    kw = {'loader': {}, 'loader-update': {'hashes': ['SHA1']}, 'loader-create': {'hashes': ['SHA1'], 'allow_create': True}}[how]
+                    try:
+                        m = rl.ManifestRecursiveLoader(os.path.join(tree, 'Manifest'), openpgp_env=Rejecting(), **kw)
+                        ok = f'constructed, {len(m.loaded_manifests["Manifest"].entries)} entries handed out, verify_file called {Rejecting.calls} times'
+                    except ge.GematoException:
+                        ok = None
+                else:
+                    os.environ['GNUPGHOME'] = os.path.join(d, 'home')
+                    argv = {'cli-verify': ['verify'], 'cli-update': ['update', '-H', 'SHA1'], 'cli-create': ['create', '-H', 'SHA1']}[how]
+                    rc, items = PT.run_cli_collect(['gemato'] + argv + [tree])
+                    if rc == 0:
+                        ok = f'exit 0; Manifest now: {open(os.path.join(tree, "Manifest")).read()[:200]!r}'
+            finally:
+                if old_home is None:
+                    os.environ.pop('GNUPGHOME', None)
+                else:
+                    os.environ['GNUPGHOME'] = old_home
+            if ok is None:
+                refused += 1
+            else:
+                ctx.violation('spec', f'a signed top-level Manifest whose signature is rejected was used by {how}: {ok}', {'text': t, 'how': how})
+    ctx.count('tree:rejected-signature', n, n, dist={'refused': refused})
 
 
 MUT_LINES = ['', ' ', 'DATA injected 1', BEGIN, SIGBEGIN, END, 'Hash: SHA1', '- DATA esc 2', 'Comment: x', '-----FOO-----']
